@@ -1,3 +1,4 @@
+import GoSSE.Proofs.GenEquiv
 import GoSSE.Proofs.QueueFinite
 /-!
 # C08 — FiniteReplayer is a bounded FIFO of the last N events
@@ -277,5 +278,16 @@ example :
     f.replay ⟨some [67], [[97]], none, false⟩ = .ok ⟨[], .nil⟩ ∧
     f.replay ⟨some [65], [[97]], none, false⟩ =
       .ok ⟨[.send ⟨1, some [66], [[97]], 0⟩, .send ⟨2, some [67], [[97]], 0⟩, .flush], .nil⟩ := by decide
+
+
+/-! ### The translated source text (regenerated from /repo on every run) -/
+
+/-- `topicsIntersect` *as translated from replay.go* (two nested range loops with an early return) is the model's
+function for all topic lists, and never panics. -/
+theorem translated_topicsIntersect_is_model (fuel : Nat) (a b : List Bytes) (hfa : a.length < fuel) (hfb : b.length < fuel) :
+    Gen.topicsIntersect fuel a b = .ok (topicsIntersect a b) :=
+  GenEquiv.topicsIntersect_eq fuel a b hfa hfb
+
+example : Gen.topicsIntersect 4 [[97], [98]] [[99], [98]] = .ok true := by rfl
 
 end GoSSE.Props.C08
